@@ -1593,6 +1593,7 @@ func (t *tr) render() string {
 		b.WriteString("  | " + s + "\n")
 	}
 	b.WriteString("  | os (e : Gtree.FErr)  -- an error returned by the operating system (os.Stat, os.MkdirAll, os.Create: the file-system model's errors)\n")
+	b.WriteString("  | writer  -- the error the caller's io.Writer returned\n")
 	var es []string
 	for s := range t.errStruct {
 		if _, ok := t.structs[s]; ok {
